@@ -173,7 +173,7 @@ func checkC11(c *core.Ctx) {
 		if len(texts) >= 3 && features["comment"] && features["unicode"] {
 			c.Nontrivial(base)
 		}
-		if i%150 == 0 {
+		if c.WantSample() {
 			var l []string
 			for t := range texts {
 				l = append(l, short(t, 200))
